@@ -168,7 +168,7 @@ let () =
             | Panic -> dead := true; "PANIC"
             | Hang -> dead := true; "HANG" in
           let is_mut = (match op0 with "P" | "D" | "Dm" | "DM" | "DA" -> true | _ -> false) in
-          let before = if is_mut then inorder !st else [] in
+          let before = if is_mut then !st else Leaf in
           let expect =
             match op0 with
             | "P" -> run_op (M (MPut (zi 1, zi 2)))
@@ -207,13 +207,14 @@ let () =
               ^ ";lvr=" ^ list_s (trav_list LVR !st) ^ ";dump=" ^ dump_s !st
             | _ -> "?" in
           if is_mut && not !dead then begin
-            let after = inorder !st in
-            if after <> before then incr effective;
-            let n = List.length after in
+            (* effective = the number of keys changed (cached size, O(1)), or the table was emptied *)
+            let n0 = int_of_z (size0 before) and n = int_of_z (size0 !st) in
+            let changed = (n <> n0) in
+            if changed then incr effective;
             if n > !maxsize then maxsize := n;
             Buffer.add_string msig op; Buffer.add_char msig ';';
             bump ("mut_" ^ op0) 1;
-            if op0 = "D" then bump (if after <> before then "delete_present" else "delete_absent") 1
+            if op0 = "D" then bump (if changed then "delete_present" else "delete_absent") 1
           end else if not is_mut then bump "queries" 1;
           (* ---- C15: invariants of the implementation's own shape ---- *)
           if op0 = "K" && res <> "?" && res <> "PANIC" && res <> "HANG" then begin
